@@ -6,6 +6,7 @@ mod debugsym;
 mod jets;
 mod layout;
 mod prog;
+mod text;
 
 use std::io::{BufRead, BufReader, BufWriter, Write};
 use std::panic::{catch_unwind, AssertUnwindSafe};
@@ -31,6 +32,9 @@ fn handle(case: &J) -> J {
         "layout_type" => layout::layout_type(case),
         "layout_val" => layout::layout_val(case),
         "prog" => prog::prog(case),
+        "type_text" => text::type_text(case),
+        "value_text" => text::value_text(case),
+        "valmap" => text::valmap(case),
         _ => Err(format!("unknown case kind {kind}")),
     }));
     let mut out = match res {
